@@ -2508,6 +2508,12 @@ impl<'de> serde::de::Visitor<'de> for AnnotationStoreVisitor<'_> {
                         }
                     };
                     for include in includes {
+                        if include == "-" {
+                            // "-" designates standard input when opening files: a document must not make the loader wait for it
+                            return Err(<A::Error as serde::de::Error>::custom(format!(
+                                "@include in AnnotationStore can not refer to standard input (-)"
+                            )));
+                        }
                         self.store.add_substore(&include).map_err(|e| {
                             <A::Error as serde::de::Error>::custom(format!(
                                 "Failed to add substore: {}",
